@@ -300,7 +300,12 @@ static void model_case_impl(Case& c, int l0pass, std::vector<std::string>* snaps
         }
     };
     bool threw = false;
-    for (unsigned step = 0; step < nsteps && !threw; step++) {
+    // a fifth of the cases: a fresh model object continues a run at a later step (a restart from a checkpoint): every
+    // action must take the input raster whose index is the number of EARLIER FIRINGS OF ITS SCHEDULE, whatever this
+    // object was called for before
+    unsigned first_step = (c.index % 5 == 3 && nsteps > 4) ? (unsigned)(1 + (c.index / 5) % (nsteps / 2)) : 0;
+    if (first_step) stats.add("run_starts_at_a_later_step");
+    for (unsigned step = first_step; step < nsteps && !threw; step++) {
         if (use_weather) {
             for (int a = 0; a < rows; a++) for (int b = 0; b < cols; b++) { int w64 = rng.coin(15) ? 0 : (rng.coin(25) ? 64 : rng.in(0, 64)); weather(a, b) = w64 / 64.0; cur_w64[a * cols + b] = w64; }
             // a third of the weather cases supply the coefficients through the probabilistic path with a standard
